@@ -20,7 +20,7 @@
 -/
 import Glb.Go.Lemmas
 import Glb.Go.LemmasJsonString
-import Glb.Generated.TrLogger
+import Glb.Generated.TrJson
 import Glb.Model.JsonHandler
 import Glb.Tie.Logger
 import Glb.Proofs.JsonString
